@@ -162,3 +162,14 @@ func (c *Ctx) Sorted() []*Obligation {
 	sort.SliceStable(obs, func(i, j int) bool { return obs[i].Key() < obs[j].Key() })
 	return obs
 }
+
+// Obligations lists the constructs of the obligations recorded so far for a rule.
+func (c *Ctx) Obligations(rule string) []string {
+	var out []string
+	for _, o := range c.Obs {
+		if o.Rule == rule {
+			out = append(out, o.Construct)
+		}
+	}
+	return out
+}
